@@ -52,6 +52,7 @@ type Check struct {
 	PanicFilter func(f vm.Finding) bool
 	Validate    int // number of path models per case to validate VM vs native (0 = default)
 	Race        bool // run native replays under the race detector
+	RecordStubs []string // functions the VM replaces by recording stubs
 	Timeout     map[string]time.Duration
 }
 
@@ -423,6 +424,12 @@ func Run(id, tier string, seed int, workers int) int {
 			defer s.Close()
 			s.Fallback = "cvc5"
 			m.Solver = s
+			if len(chk.RecordStubs) > 0 {
+				m.RecordStubs = map[string]bool{}
+				for _, n := range chk.RecordStubs {
+					m.RecordStubs[n] = true
+				}
+			}
 			if err := m.InitRepo(initPkgs); err != nil {
 				statsMu.Lock()
 				toolErrors = append(toolErrors, err.Error())
